@@ -120,7 +120,13 @@ class Base(object):
         if len(st.model) < self.max_sections:
             out.append(("create",))
         texts = [make_text(k, used) for k in self.kinds]
+        if st.model and not getattr(st, "decoy", None):
+            # another Output of the same process gets a section with content of its own (on its own stream):
+            # it is no business of this output's sections
+            out.append(("decoy",))
         for s, sec in enumerate(st.model):
+            # a line whose verbosity flag hides it (sections start at normal verbosity): nothing shown, nothing counted
+            out.append(("write_line_hidden", s, texts[0]))
             for t in texts:
                 out.append(("write_line", s, t))
             for t in texts:
@@ -149,6 +155,16 @@ class Base(object):
             elif kind == "clear_n":
                 st.secs[op[1]].clear(op[2])
                 del st.model[op[1]][-op[2]:]
+            elif kind == "write_line_hidden":
+                st.secs[op[1]].write_line(op[2], flags=1)  # VERBOSE
+            elif kind == "decoy":
+                from clikit.api.io.output import Output
+                from clikit.io.output_stream.buffered_output_stream import BufferedOutputStream
+                other = Output(BufferedOutputStream(), st.out.formatter)
+                sec = other.section()
+                sec.write_line("decoy line one")
+                sec.write_line("decoy line two")
+                st.decoy = (other, sec)
             else:
                 raise ValueError("engine error: unknown op %r" % (op,))
         except Exception as e:  # noqa
@@ -196,7 +212,8 @@ class AnsiSpec(Base):
 
     def key(self, st):
         t = st.term
-        return (canon(st.out, _leaf), tuple(tuple(s) for s in st.model), t.r, t.c, t.pending_wrap)
+        return (canon(st.out, _leaf), tuple(tuple(s) for s in st.model), t.r, t.c, t.pending_wrap,
+                canon(getattr(st, "decoy", None), _leaf))
 
     def expected_screen(self, st):
         rows = [SENTINEL]
@@ -285,16 +302,18 @@ class PlainSpec(Base):
         st.exp_all = SENTINEL + "\n"
         st.out.write_line(SENTINEL)
         st.all += self.drain(st)
-        if st.all != SENTINEL + "\n":
-            raise RuntimeError("engine error: plain sentinel line came out as %r" % st.all)
+        st.broken_sentinel = st.all != SENTINEL + "\n"  # judged in apply(): a plain write_line on the parent output is broken
         return st
 
     def key(self, st):
         # the model is NOT part of the key: a plain section keeps no content, what an operation emits is a
         # function of the objects' state alone (and is checked on every transition)
-        return canon(st.out, _leaf)
+        return (canon(st.out, _leaf), canon(getattr(st, "decoy", None), _leaf))
 
     def apply(self, st, op):
+        if getattr(st, "broken_sentinel", False):
+            return [report.viol("plain:parent-write_line", "Output.write_line of the sentinel on the undecorated parent output came out as %r" % st.all,
+                                None, SENTINEL + "\n", st.all)]
         v = self.do(st, op)
         if v:
             return [v]
@@ -384,12 +403,16 @@ def main():
     xs = AnsiSpec(2, CORE_KINDS)
     r1 = _c15_bfs.explore(xs, xdepth, dedup=True, keep_keys=True)
     r2 = _c15_bfs.explore(xs, xdepth, dedup=False, keep_keys=True)
-    if r1.keys != r2.keys or bool(r1.violations) != bool(r2.violations):
-        raise RuntimeError("engine error: dedup cross-check failed (%d vs %d fingerprints, %d vs %d violations)"
-                           % (len(r1.keys), len(r2.keys), len(r1.violations), len(r2.violations)))
+    for r in (r1, r2):
+        for v in r.violations:
+            v["case"].update(mode="ansi", kinds=xs.kinds, max_sections=2, indent=0)
+    rep.merge(r1.violations)
     rep.merge(r2.violations)
+    if not r1.violations and not r2.violations and r1.keys != r2.keys:
+        # (with violations the two runs stop expanding at different places: the comparison only means something on a silent tree)
+        raise RuntimeError("engine error: dedup cross-check failed (%d vs %d fingerprints)" % (len(r1.keys), len(r2.keys)))
     rep.part("ansi-nodedup-crosscheck", depth=xdepth, executions_dedup=r1.transitions, executions_nodedup=r2.transitions,
-             fingerprints=len(r2.keys), same_fingerprint_set=True)
+             fingerprints=len(r2.keys), same_fingerprint_set=r1.keys == r2.keys)
     tot_t += r1.transitions + r2.transitions
     tot_s = len(all_keys)
     rep.set("states", tot_s)
